@@ -26,7 +26,7 @@ Actions are reported as tuples: (kind, actor_index) e.g. ("Put", "M"),
 ("Set", "M"), ("Close", "M:q0"), ("JoinThread", "M:q0"), ("Join", "M:W2").
 """
 import threading
-from queue import Empty
+from queue import Empty, Full
 
 
 class SchedAbort(BaseException):
@@ -89,6 +89,9 @@ class Scheduler:
             q = obj
             if q.maxsize <= 0 or q.sem > 0:
                 return [(("Put", f"{who}:{q.name}"), False)]
+            if q.put_bounded.get(who):
+                # put(block=False) or put(timeout=t) on a full queue: queue.Full may be raised
+                return [(("PutTimeout", f"{who}:{q.name}"), False)]
             return []
         if kind == "get":
             q = obj
@@ -214,9 +217,12 @@ class Scheduler:
         a.pending = None
         res = None
         if kind == "put":
-            if obj.maxsize > 0:
-                obj.sem -= 1
-            obj.buffers.setdefault(a.name, []).append(extra)
+            if name[0] == "PutTimeout":
+                res = "full"
+            else:
+                if obj.maxsize > 0:
+                    obj.sem -= 1
+                obj.buffers.setdefault(a.name, []).append(extra)
         elif kind == "get":
             if name[0] == "Recv":
                 res = ("item", obj.pipe.pop(0))
@@ -331,12 +337,21 @@ class FakeQueue:
         self.closed_by = set()
         self.feeder_done_by = set()
         self.name = f"q{len(sched.queues)}"
+        self.put_bounded = {}
         sched.queues.append(self)
 
     def put(self, obj, block=True, timeout=None):
         if self.closed:
             raise ValueError(f"Queue {self!r} is closed")
-        self.sched.sync("put", self, obj)
+        self.put_bounded[self.sched.me().name] = (not block) or (timeout is not None)
+        if self.sched.sync("put", self, obj) == "full":
+            raise Full
+
+    def put_nowait(self, obj):
+        return self.put(obj, False)
+
+    def get_nowait(self):
+        return self.get(False)
 
     def get(self, block=True, timeout=None):
         if self.closed and self.sched.me() is self.sched.main and False:
